@@ -131,7 +131,7 @@ func (m *memSet) Warnings() storage.Warnings { return nil }
 
 // how transpiler.go processHints treats a hint (transcribed classification, used only to NAME a difference)
 var instantFns = map[string]bool{"abs": true, "absent": true, "ceil": true, "exp": true, "floor": true, "ln": true, "log2": true, "log10": true, "round": true,
-	"scalar": true, "sgn": true, "sort": true, "sqrt": true, "timestamp": true, "atan": true, "cos": true, "cosh": true, "sin": true, "sinh": true, "tan": true,
+	"scalar": true, "sgn": true, "sort": true, "sqrt": true, "atan": true, "cos": true, "cosh": true, "sin": true, "sinh": true, "tan": true,
 	"tanh": true, "deg": true, "rad": true}
 var rangeFns = map[string]bool{"absent_over_time": true, "deriv": true, "idelta": true, "irate": true, "rate": true, "resets": true, "min_over_time": true,
 	"max_over_time": true, "sum_over_time": true, "count_over_time": true, "stddev_over_time": true, "stdvar_over_time": true, "last_over_time": true,
@@ -139,7 +139,19 @@ var rangeFns = map[string]bool{"absent_over_time": true, "deriv": true, "idelta"
 
 func hintTrait(class string, hs []storage.SelectHints) string {
 	if class == "subquery" {
-		return "subquery"
+		// inside a subquery the engine evaluates on the subquery's own grid, which the select hints do not carry: what
+		// processHints does with the hints of the QUERY step names the difference
+		t := "subquery"
+		for _, h := range hs {
+			switch {
+			case h.Step == 0:
+			case instantFns[h.Func] || h.Func == "":
+				t = "subquery|step-bucketed"
+			case rangeFns[h.Func] && h.Range > 0 && h.Step > h.Range:
+				t = "subquery|step>range"
+			}
+		}
+		return t
 	}
 	set := map[string]bool{}
 	al := func(ok bool) string {
@@ -154,14 +166,11 @@ func hintTrait(class string, hs []storage.SelectHints) string {
 			set["raw"] = true
 		case instantFns[h.Func] || h.Func == "":
 			// the rows are re-timed to bucket ends hints.Start + k*Step; the engine evaluates at hints.Start + lookback + j*Step
-			if h.Func == "timestamp" {
-				set["step-bucketed(timestamp)"] = true
-			} else {
-				set["step-bucketed"+al(300000%h.Step == 0)] = true
-			}
-		case rangeFns[h.Func] && h.Step > h.Range:
-			// rows outside [k*Step - Range, k*Step] (absolute time) are dropped; the engine evaluates at hints.Start + Range + j*Step
-			set["step>range"+al((h.Start+h.Range)%h.Step == 0)] = true
+			// (timestamp() is not an instant function here: its selector is not re-timed)
+			set["step-bucketed"+al(300000%h.Step == 0)] = true
+		case rangeFns[h.Func] && h.Range > 0 && h.Step > h.Range:
+			// rows outside the windows [t - Range, t], t = hints.Start + Range + j*Step (the engine's evaluation times), are dropped
+			set["step>range"] = true
 		default:
 			set["unfiltered"] = true
 		}
